@@ -23,15 +23,17 @@ CLAIMED = {
             "DESIGN.md §8 C03",
             "Trusted: Coq kernel + classical-reals axioms of the stdlib (listed in evidence), the Agg.v model "
             "(tied by correspondence), quadprog and LAPACK svd (checked per case against exact answers), float "
-            "rounding (tolerances). The explanatory 'projection onto the dual cone' clause (Prop. 1 of the paper) "
-            "is not proved.",
+            "rounding (tolerances). The explanatory 'projection onto the dual cone' clause is proved for the unregularised problem "
+            "(C03_is_dual_cone_projection, C03_dualproj_unregularised: variational and closest-point forms, "
+            "derived from is_min alone).",
             "Coq proof (R) + differential correspondence with exact rational QP oracle"),
     "C04": ("proof",
             "PARTIAL. Proved in Coq for all matrices: at a minimiser (M w)_i >= 0, hence for DualProj and UPGrad "
             "(J.A(J))_i >= -reg_eps s^2 w_i for every row (props/C04.v). Also proved (C04_mgda_allowance): for every budget and epsilon, "
             "(J.A(J))_i >= -s*sqrt(|A(J)|^2-|x*|^2) with x* a min-norm point of the hull (variational inequality + "
-            "Cauchy-Schwarz), and x* itself opposes no objective. NOT proved (oracle only): the Frank-Wolfe "
-            "rate 8 s^2/(K+2), CAGrad's c>=1 clause, existence of x* (a hypothesis). Direct oracle: the stated allowance on random matrices of "
+            "Cauchy-Schwarz), and x* itself opposes no objective. Also proved: CAGrad with c>=1 opposes no objective, from optimality of the conic program's answer "
+            "(first-order conditions derived, not assumed); MGDA on two rows is exactly non-conflicting after one "
+            "step. NOT proved (oracle only): the Frank-Wolfe rate 8 s^2/(K+2); existence of x* is a hypothesis. Direct oracle: the stated allowance on random matrices of "
             "all categories and exhaustively on all {-1,0,1} matrices (2x2,2x3,3x2 quick; up to 3x3 thorough), "
             "at scale 1 and at sigma_max just above norm_eps, all MGDA budgets 0..1000.",
             "DESIGN.md §8 C04, §13",
@@ -51,7 +53,8 @@ CLAIMED["C18"] = ("proof",
     "RNG replication: the implementation's PCGrad output under 12/40 seeds must lie in the Minkowski sum of the "
     "model's per-row candidate sets over ALL (m-1)! orders (m<=4), GradDrop per coordinate in the model's two "
     "candidates (also for non-identity purity functions f). Also proved: every Frank-Wolfe step does not increase a^T G a, hence MGDA is never longer than the "
-    "mean row. NOT proved (oracle only): exact min-norm point for two rows after one step.",
+    "mean row. For two rows, every budget >= 1 and every epsilon the output IS the minimum-norm point of the "
+    "segment (C18_mgda_two_rows).",
     "DESIGN.md §8 C18",
     "Trusted: Coq kernel + stdlib real axioms; Agg.v model; CLARABEL answer as an oracle (harness' own cvxpy solve); "
     "torch RNG not modelled (candidate sets).",
@@ -111,11 +114,11 @@ CLAIMED["C11"] = ("proof",
     "PARTIAL. Proved in Coq (props/C11.v): the 2-d/finiteness check is Ok iff 2-d and finite, else ValueError; "
     "row-count contradictions of Constant/pref vectors, GradDrop's leak, TrimmedMean, Krum yield ValueError; every "
     "model output has one entry per column; A(tJ)=tA(J) for every fixed weighting, for any weighting invariant "
-    "under positive scaling of the Gramian (meta), for MGDA (all budgets), TrimmedMean and the fixed IMTL-G; the "
+    "under positive scaling of the Gramian (meta), for MGDA (all budgets), TrimmedMean, the fixed IMTL-G, PCGrad (any schedule), Krum (ties preserved), GradDrop (fixed draw), ConFIG, and - with the scaled kernel arguments on the scaled side - UPGrad, DualProj, CAGrad, Aligned-MTL; the "
     "pre-fix absolute guard of IMTL-G refutes homogeneity (witness J=[[1]], t=10^13). OBSERVED, not proved "
     "(true by construction in a functional exact model): finiteness over 27/200 orders of magnitude, dtype "
     "preservation, bitwise-unchanged input, independence from earlier calls, equal seeds => equal results; "
-    "homogeneity of the other aggregators at t=2^e over the full stated ranges; malformed stream.",
+    "float behaviour at t=2^e over the full stated ranges; malformed stream.",
     "DESIGN.md §8 C11, §13",
     "Trusted: Coq kernel + stdlib real axioms; Agg.v; float behaviour is observed only. UPGrad/DualProj in "
     "float32 are exercised with reg_eps >= 1e-4 only (below float32 rounding quadprog may report a non-PD matrix).",
@@ -123,14 +126,16 @@ CLAIMED["C11"] = ("proof",
 CLAIMED["C17"] = ("proof",
     "PARTIAL. Proved in Coq (props/C17.v): from the pinv contract G P = I (independent rows), IMTL-G's weights sum "
     "to one and (J.A(J))_i = |g_i|/sigma for every i (equal projections); every weighted model and ConFIG map an "
-    "all-zero matrix to the zero vector. NOT proved (oracle only): ConFIG's equal positive cosines / length, "
-    "Aligned-MTL's re-balanced rows. Oracle: the defining equalities on full-row-rank matrices (condition <= 1e3, "
+    "all-zero matrix to the zero vector. Also proved from the kernel contracts: ConFIG's cosines w_i/|Bw| (equal and positive by default, "
+    "proportional to the preference vector otherwise) and length = sum of projections (pinv contract U B = I); "
+    "Aligned-MTL's re-balanced rows are mutually orthogonal of squared length lambda_min and A(J) is their "
+    "weighted combination (eigh contract, full rank). NOT proved: the rank-deficient Aligned-MTL case. Oracle: the defining equalities on full-row-rank matrices (condition <= 1e3, "
     "scales 2^-30..2^25, positive preference vectors, short-row-between-long-rows structures, 2^16 zero columns "
     "appended for Aligned-MTL), zero matrices of 7 shapes.",
     "DESIGN.md §8 C17, §13",
     "Trusted: Coq kernel + stdlib real axioms; Agg.v; LAPACK pinv/eigh (exact rational pinv in the harness for "
     "IMTL-G's model, float64 numpy for ConFIG/Aligned-MTL).",
-    "Coq proof (IMTL-G, zero) + differential oracle")
+    "Coq proof (IMTL-G, ConFIG, Aligned-MTL full rank, zero) + differential oracle")
 CLAIMED["C19"] = ("proof",
     "Coq theorems (props/C19.v; the state-machine ones are axiom-free and hold for every number type): for ALL "
     "histories h and suffixes t, every k, every solver (an arbitrary function of the problem object, the "
